@@ -733,6 +733,21 @@ def _k_object_bigint(family, case, disc):
     return trigger and "int64" in str(disc.detail.get("check"))
 
 
+@known.finding("C14/uint64-extension-min-max-through-float")
+def _k_uint64_ext(family, case, disc):
+    """pandas' masked UInt64 min()/max() go through float64 once a value needs the top bit: the inferred bound is pandas'
+    (inexact) minimum / maximum, off by the float rounding"""
+    if not disc.kind.startswith("bound-not-tight-exact:") or not disc.kind.endswith(":int"):
+        return False
+    d = disc.detail if isinstance(disc.detail, dict) else {}
+    if d.get("kind") != "UInt64":
+        return False
+    cols = [c for c in _comps(case, "UInt64")]
+    big = any(isinstance(x, int) and not isinstance(x, bool) and x >= 2 ** 63 for c in cols for x in c["cells"])
+    exp, obs = d.get("expected"), d.get("observed")
+    return big and isinstance(exp, int) and isinstance(obs, int) and exp != obs and float(exp) == float(obs)
+
+
 @known.finding("C14/tz-aware-bounds-not-serialisable")
 def _k_tz_dump(family, case, disc):
     if disc.kind not in ("yaml-dump-raised:RepresenterError", "json-dump-raised:TypeError"):
